@@ -1,4 +1,4 @@
-\* exhaustive: chain length <= 2, 4 shapes per head, 2 blocks verified ahead (competing successors)
+\* exhaustive: chain length <= 2, 2 shapes per head (full, emptydiff), 2 blocks verified ahead (competing successors)
 CONSTANTS
   Versions <- MCVersions
   Committed <- MCCommitted
@@ -6,7 +6,7 @@ CONSTANTS
   SdFields <- MCSdFields
   SuFields <- MCSuFields
   MaxLen = 2
-  Shapes <- MCShapes
+  Shapes <- MCShapesTwo
   Targets <- MCTargets
   EmptyDiffShapes <- MCEmptyDiffShapes
   ClassShapes <- MCClassShapes
